@@ -153,6 +153,12 @@ fn table_sweep(ctx: &Ctx, rep: &mut Report) {
     println!("part transition-table: {} (state background x scalar) entries ({:.1}s)", total, t0.elapsed().as_secs_f64());
 }
 
+const LEAK_PREFIXES: &[&str] = &[
+    "\x1b[9;8;7;6:5:4;3;2;1m",
+    "\x1b[88:77:66:55:44:33;22:11:99;1:2:3:4:5:6m\x1bP9:9\x1b\\",
+    "\u{9b}?65535;65535;65535;65535 q",
+];
+
 fn dispatch_shapes(ctx: &Ctx, rep: &mut Report) {
     let t0 = Instant::now();
     let many32 = vec!["7"; 32].join(";");
@@ -197,22 +203,26 @@ fn dispatch_shapes(ctx: &Ctx, rep: &mut Report) {
     let bad: Vec<(String, String)> = cases
         .par_iter()
         .filter_map(|s| {
-            let mut p = Parser::new();
-            let mut r = RefParser::new();
-            // a previous sequence with many parameters must not leak
-            let full = format!("\x1b[9;8;7;6:5:4;3;2;1m{}X", s);
-            match guarded(|| run_pair(&mut p, &mut r, &full)) {
-                Ok(Ok(())) => None,
-                Ok(Err(e)) => Some((s.clone(), e)),
-                Err(m) => Some((s.clone(), format!("panic: {}", m))),
+            // previous sequences with many parameters / sub-parameters must not leak
+            for pre in LEAK_PREFIXES {
+                let mut p = Parser::new();
+                let mut r = RefParser::new();
+                let full = format!("{}{}X", pre, s);
+                match guarded(|| run_pair(&mut p, &mut r, &full)) {
+                    Ok(Ok(())) => {}
+                    Ok(Err(e)) => return Some((format!("{}{}", pre, s), e)),
+                    Err(m) => return Some((format!("{}{}", pre, s), format!("panic: {}", m))),
+                }
             }
+            None
         })
         .collect();
-    rep.evaluations += cases.len() as u64;
-    rep.transitions += cases.len() as u64;
-    rep.traces_validated += cases.len() as u64;
+    let runs = (cases.len() * LEAK_PREFIXES.len()) as u64;
+    rep.evaluations += runs;
+    rep.transitions += runs;
+    rep.traces_validated += runs;
     rep.distinct_nontrivial += cases.len() as u64;
-    rep.parts.push(json!({"part":"dispatch-shapes","sequences":cases.len(),"violating":bad.len(),"wall_s":t0.elapsed().as_secs_f64()}));
+    rep.parts.push(json!({"part":"dispatch-shapes","leak_prefixes":LEAK_PREFIXES.len(),"sequences":cases.len(),"violating":bad.len(),"wall_s":t0.elapsed().as_secs_f64()}));
     println!("part dispatch-shapes: {} sequences, {} violating ({:.1}s)", cases.len(), bad.len(), t0.elapsed().as_secs_f64());
     for (s, e) in bad.iter().take(3) {
         emit_violation(ctx, rep, "C03", json!({"part":"dispatch-shapes","sequence_raw":s,"sequence":esc(s),"oracle":"dispatch","observed":e}));
@@ -346,7 +356,7 @@ pub fn replay(ctx: &Ctx, v: &Value) -> bool {
         "dispatch-shapes" => {
             let mut p = Parser::new();
             let mut r = RefParser::new();
-            let full = format!("\x1b[9;8;7;6:5:4;3;2;1m{}X", v["sequence_raw"].as_str().unwrap());
+            let full = format!("{}X", v["sequence_raw"].as_str().unwrap());
             let res = run_pair(&mut p, &mut r, &full);
             println!("{:?}", res);
             res.is_err()
